@@ -21,7 +21,7 @@ class C07(E1Check):
 
     def configs(self):
         # the depth-bounded runs plus runs to the fixpoint within 2 stored points (histories of any length)
-        extra = closure_configs(("mem",)) if self.tier == "quick" else closure_configs(("mem", "csv"))
+        extra = [] if self.tier == "quick" else closure_configs(("mem",))
         return super().configs() + extra
 
     def budget(self):
@@ -31,9 +31,16 @@ class C07(E1Check):
         ops = std_ops(self.alpha, cfg, self.tier)
         extra = [("insert", "P7", None, False, "db"), ("insert", "P8", None, False, "db"),
                  # getters as transitions: whatever an earlier call may have cached must not go stale
-                 ("getter", "get_field_values", "v", "m"), ("getter", "get_tag_keys", "n"), ("getter", "h.len", "m")]
+                 ("getter", "get_field_values", "v", "m"), ("getter", "get_tag_keys", "n"), ("getter", "h.len", "m"),
+                 # a batch that fails part-way: the stored prefix must show up in every getter
+                 ("bad_insert_multiple", ("P0", "P1"), 2, "int", "db"), ("bad_insert_multiple", ("P2", "P8"), 1, "str", "db")]
         have = set(ops)
         return [o for o in extra if o not in have] + ops
+
+    def enabled(self, op, contents, cfg, history):
+        if op[0] == "bad_insert_multiple" and len(contents) + len(op[1]) > cfg.get("N", self.bounds()["N"]):
+            return False
+        return super().enabled(op, contents, cfg, history)
 
     def observe(self, w, stored, history, cfg, counters):
         if any(len(rp[2]) and any(isinstance(v, str) and "\n" in v for v in rp[2].values()) for rp in stored):
